@@ -15,6 +15,7 @@ import (
 	"strconv"
 	"strings"
 	"sync"
+	"sync/atomic"
 	"time"
 
 	"github.com/conduitio/conduit-commons/opencdc"
@@ -172,13 +173,21 @@ func (e Ev) Coq() string {
 // Log is the one event log of a run.
 type Log struct {
 	mu  sync.Mutex
+	id  int64
 	evs []Ev
 }
 
 func (l *Log) Add(evs ...Ev) {
 	l.mu.Lock()
 	l.evs = append(l.evs, evs...)
+	emitEvents(l.id, evs) // under l.mu: the streamed order is the log order
 	l.mu.Unlock()
+}
+
+func (l *Log) Len() int {
+	l.mu.Lock()
+	defer l.mu.Unlock()
+	return len(l.evs)
 }
 
 func (l *Log) Snapshot() []Ev {
@@ -402,8 +411,11 @@ func (s *Sched) Released() []string {
 // ---------------------------------------------------------------------------
 
 type Obs struct {
+	RunID    int64
 	Log      []Ev
 	Hang     bool
+	Crashed  string   // the engine killed the process (panic in one of its goroutines); Log = what was seen before
+	Stuck    string   // known shutdown deadlock of the engine that is unrelated to C01/C04/C05 (see RunV1)
 	Results  []string // per worker / node group: "ok" | "err"
 	Released []string
 	Note     string
@@ -414,7 +426,7 @@ func (o Obs) JSON() map[string]any {
 	for i, e := range o.Log {
 		evs[i] = e.JSON()
 	}
-	return map[string]any{"log": evs, "hang": o.Hang, "results": o.Results, "released": o.Released, "note": o.Note}
+	return map[string]any{"log": evs, "hang": o.Hang, "stuck": o.Stuck, "crashed": o.Crashed, "results": o.Results, "released": o.Released, "note": o.Note}
 }
 
 // run is the state the fakes of one run share.
@@ -428,8 +440,10 @@ type run struct {
 	dlqCount  int
 }
 
+var runSeq atomic.Int64
+
 func newRun(c Case) *run {
-	return &run{c: c, log: &Log{}, sched: NewSched(c.Sched), exhausted: map[int]bool{}}
+	return &run{c: c, log: &Log{id: runSeq.Add(1)}, sched: NewSched(c.Sched), exhausted: map[int]bool{}}
 }
 
 func (x *run) setExhausted(s int) {
@@ -463,19 +477,32 @@ func (x *run) nextDlq() int {
 //
 //	done      closed when the engine has completely finished
 //	fire(k)   performs control action k ("stop" / "cancel"); must not block
-func (x *run) drive(done <-chan struct{}, fire func(kind string), deadline time.Duration) (hang bool) {
+//	stuck()   non-empty when the engine is in a known, property-unrelated shutdown
+//	          deadlock (checked once the run has been idle for a while)
+func (x *run) drive(done <-chan struct{}, fire func(kind string), stuck func() string, deadline time.Duration) (hang bool, stuckIn string) {
 	const settle = 120 * time.Microsecond
 	t0 := time.Now()
 	ctlFired, stopIssued := false, false
 	idleSince := time.Time{}
+	// A run is given up (hang) when nothing was logged or released during [deadline]
+	// worth of idle polling rounds of this loop (each sleeps 0.5 ms, so the count only
+	// advances while this process is actually being scheduled: on the oversubscribed
+	// sandbox a whole process can be starved of CPU for seconds, which wall-clock
+	// deadlines mistake for a hang), or after 24x [deadline] of wall time in total.
+	lastProgress, progress := time.Now(), -1
+	idleRounds, maxIdleRounds := 0, int(deadline/(500*time.Microsecond))
+	lastStuckCheck := time.Time{}
 	for {
 		select {
 		case <-done:
-			return false
+			return false, ""
 		default:
 		}
-		if time.Since(t0) > deadline {
-			return true
+		if p := x.sched.Steps() + x.log.Len(); p != progress {
+			progress, lastProgress, idleRounds = p, time.Now(), 0
+		}
+		if (idleRounds > maxIdleRounds && time.Since(lastProgress) > deadline) || time.Since(t0) > 24*deadline {
+			return true, ""
 		}
 		if ctl := x.c.Ctl; ctl != nil && !ctlFired && x.sched.Steps() >= ctl.At {
 			ctlFired = true
@@ -506,11 +533,18 @@ func (x *run) drive(done <-chan struct{}, fire func(kind string), deadline time.
 			}
 			fire(ctl.Kind)
 		}
+		if stuck != nil && time.Since(idleSince) > 150*time.Millisecond && time.Since(lastStuckCheck) > 100*time.Millisecond {
+			lastStuckCheck = time.Now()
+			if d := stuck(); d != "" {
+				return false, d
+			}
+		}
 		select {
 		case <-done:
-			return false
+			return false, ""
 		case <-x.sched.wake:
 		case <-time.After(500 * time.Microsecond):
+			idleRounds++
 		}
 	}
 }
